@@ -480,11 +480,11 @@ Lemma copy_members_spec l : forall n r n', copy_members n l = (r, n') ->
   map s_holes r = map s_holes l.
 Proof.
   induction l as [|s l IH]; intros n r n' H; cbn in H.
-  - inversion H; subst. repeat split; [lia | intros x []].
+  - inversion H; subst. split; [lia|]. split; [intros x [] | reflexivity].
   - unfold copy_sobj in H. destruct (copy_cell n (s_own s)) as [c n1] eqn:E1.
     destruct (copy_members n1 l) as [t n2] eqn:E2. inversion H; subst.
     destruct (copy_cell_spec _ _ _ _ E1) as [L1 I1]. destruct (IH _ _ _ E2) as (L2 & I2 & H2).
-    repeat split; [lia | | cbn; now rewrite H2].
+    split; [lia|]. split; [|cbn; now rewrite H2].
     intros x Hx. cbn in Hx. apply in_app_iff in Hx as [Hx|Hx].
     + apply I1 in Hx. lia.
     + apply I2 in Hx. lia.
@@ -537,8 +537,8 @@ Lemma pk_loc_spec n st l l' st' : memo_ok n st -> pk_loc st l = (l', st') ->
   memo_ok n st' /\ n <= l' < snd st' /\ snd st <= snd st'.
 Proof.
   intros [L M]. unfold pk_loc. destruct (assoc l (fst st)) eqn:E; intro H; inversion H; subst.
-  - apply assoc_in in E. apply M in E. repeat split; auto; lia.
-  - cbn. repeat split; try lia. intros a b [Hab|Hab].
+  - apply assoc_in in E. apply M in E. split; [split; auto|]. lia.
+  - cbn. split; [|lia]. split; [lia|]. intros a b [Hab|Hab].
     + inversion Hab; subst. lia.
     + apply M in Hab. lia.
 Qed.
@@ -547,10 +547,10 @@ Lemma pk_list_spec n ls : forall st r st', memo_ok n st -> pk_list st ls = (r, s
   memo_ok n st' /\ snd st <= snd st' /\ forall x, In x r -> n <= x < snd st'.
 Proof.
   induction ls as [|l ls IH]; intros st r st' K H; cbn in H.
-  - inversion H; subst. repeat split; [apply K | apply K | lia | intros x []].
+  - inversion H; subst. split; [exact K|]. split; [lia | intros x []].
   - destruct (pk_loc st l) as [l' st1] eqn:E1. destruct (pk_list st1 ls) as [t st2] eqn:E2.
     inversion H; subst. destruct (pk_loc_spec _ _ _ _ _ K E1) as (K1 & B1 & L1).
-    destruct (IH _ _ _ K1 E2) as (K2 & L2 & I2). repeat split; try apply K2; try lia.
+    destruct (IH _ _ _ K1 E2) as (K2 & L2 & I2). split; [exact K2|]. split; [lia|].
     intros x [<-|Hx]; [lia | now apply I2].
 Qed.
 
@@ -565,11 +565,11 @@ Proof.
   destruct (pk_list_spec _ _ _ _ _ K2 E3) as (K3 & L3 & I3).
   destruct (odt c) as [d|].
   - destruct (pk_loc st3 d) as [d' st4] eqn:E4. destruct (pk_loc_spec _ _ _ _ _ K3 E4) as (K4 & B4 & L4).
-    intro H; inversion H; subst. repeat split; try apply K4; try lia.
+    intro H; inversion H; subst. split; [exact K4|]. split; [lia|]. intros x H0.
     unfold cell_locs in H0. cbn [oid oprops onest odt opt_list] in H0.
     destruct H0 as [<-|[<-|Hx]]; try lia. apply in_app_iff in Hx as [Hx|[<-|[]]]; [|lia].
     apply I3 in Hx. lia.
-  - intro H; inversion H; subst. repeat split; try apply K3; try lia.
+  - intro H; inversion H; subst. split; [exact K3|]. split; [lia|]. intros x H0.
     unfold cell_locs in H0. cbn [oid oprops onest odt opt_list] in H0.
     destruct H0 as [<-|[<-|Hx]]; try lia. apply in_app_iff in Hx as [Hx|[]].
     apply I3 in Hx. lia.
@@ -579,10 +579,10 @@ Lemma pk_cells_spec n cs : forall st r st', memo_ok n st -> pk_cells st cs = (r,
   memo_ok n st' /\ snd st <= snd st' /\ forall x, In x (flat_map cell_locs r) -> n <= x < snd st'.
 Proof.
   induction cs as [|c cs IH]; intros st r st' K H; cbn in H.
-  - inversion H; subst. repeat split; [apply K | apply K | lia | intros x []].
+  - inversion H; subst. split; [exact K|]. split; [lia | intros x []].
   - destruct (pk_cell st c) as [c' st1] eqn:E1. destruct (pk_cells st1 cs) as [t st2] eqn:E2.
     inversion H; subst. destruct (pk_cell_spec _ _ _ _ _ K E1) as (K1 & L1 & I1).
-    destruct (IH _ _ _ K1 E2) as (K2 & L2 & I2). repeat split; try apply K2; try lia.
+    destruct (IH _ _ _ K1 E2) as (K2 & L2 & I2). split; [exact K2|]. split; [lia|]. intros x H0.
     cbn in H0. apply in_app_iff in H0 as [Hx|Hx]; [apply I1 in Hx; lia | apply I2 in Hx; lia].
 Qed.
 
@@ -592,8 +592,8 @@ Proof.
   intro K. unfold pk_sobj. destruct (pk_cell st (s_own s)) as [c st1] eqn:E1.
   destruct (pk_cells st1 (s_holes s)) as [hs st2] eqn:E2. intro H; inversion H; subst.
   destruct (pk_cell_spec _ _ _ _ _ K E1) as (K1 & L1 & I1).
-  destruct (pk_cells_spec _ _ _ _ _ K1 E2) as (K2 & L2 & I2). repeat split; try apply K2; try lia.
-  unfold sobj_locs in H0. cbn in H0. apply in_app_iff in H0 as [Hx|Hx];
+  destruct (pk_cells_spec _ _ _ _ _ K1 E2) as (K2 & L2 & I2). split; [exact K2|]. split; [lia|].
+  intros x H0. unfold sobj_locs in H0. cbn in H0. apply in_app_iff in H0 as [Hx|Hx];
     [apply I1 in Hx; lia | apply I2 in Hx; lia].
 Qed.
 
@@ -601,10 +601,10 @@ Lemma pk_sobjs_spec n l : forall st r st', memo_ok n st -> pk_sobjs st l = (r, s
   memo_ok n st' /\ snd st <= snd st' /\ forall x, In x (flat_map sobj_locs r) -> n <= x < snd st'.
 Proof.
   induction l as [|s l IH]; intros st r st' K H; cbn in H.
-  - inversion H; subst. repeat split; [apply K | apply K | lia | intros x []].
+  - inversion H; subst. split; [exact K|]. split; [lia | intros x []].
   - destruct (pk_sobj st s) as [s' st1] eqn:E1. destruct (pk_sobjs st1 l) as [t st2] eqn:E2.
     inversion H; subst. destruct (pk_sobj_spec _ _ _ _ _ K E1) as (K1 & L1 & I1).
-    destruct (IH _ _ _ K1 E2) as (K2 & L2 & I2). repeat split; try apply K2; try lia.
+    destruct (IH _ _ _ K1 E2) as (K2 & L2 & I2). split; [exact K2|]. split; [lia|]. intros x H0.
     cbn in H0. apply in_app_iff in H0 as [Hx|Hx]; [apply I1 in Hx; lia | apply I2 in Hx; lia].
 Qed.
 
